@@ -466,6 +466,9 @@ func parseVariant(s string) variant {
 		fmt.Sscanf(s, "wfail:%d:%d", &v.failOp, &v.failN)
 	case strings.HasPrefix(s, "dfail:"):
 		fmt.Sscanf(s, "dfail:%d", &v.dfail)
+	case strings.HasPrefix(s, "free+dfail:"): // a hand-built scenario (no model prediction) with a datastore fault in its last deletion
+		v.free = true
+		fmt.Sscanf(s, "free+dfail:%d", &v.dfail)
 	}
 	return v
 }
@@ -873,6 +876,12 @@ func crashPrefixes(t *testing.T, id int, c map[string]any, cacheSz int, r runRes
 						ev.Res, ev.Err = "panic", fmt.Sprint(r)
 					}
 				}()
+				if p%3 == 2 {
+					// every third prefix: the first datastore write after the crash fails as well (a transient failure): the
+					// store still starts, whatever it wanted to clean up
+					e2.rs.FailWrites(0, 1)
+					ev.Cfg += ",wfail0"
+				}
 				if err := e2.open(); err != nil {
 					ev.Res, ev.Err = "err", err.Error()
 				}
